@@ -30,7 +30,7 @@ CHECKS += [
            "1..3): identity/dot/mat_mult/mat_vec_mult/augmented_matrix equal their definitions cell by cell with frames; "
            "gj_solve soundness by a ghost-solution cut-point invariant checked after every row operation (result = X on "
            "every path returning 0 without a zero diagonal); completeness witnesses executed exactly; linalg3.pyx det, "
-           "transform*, zero_matrix_case and eigen_decomposition (modular, against the assumed tred2+tql2 contract).",
+           "transform*, zero_matrix_case and eigen_decomposition (modular, against the assumed tred2+tql2 contract). tql2 (QL iteration) is not verified functionally, but its safety contract is proved for every symmetric tridiagonal input and any number of sweeps: the deflation scan stops at the sentinel e[n-1]=0, a sweep starts only with e[l]!=0, p+r!=0, e[n-1]=0 is an invariant of the sweep loop.",
       note="float = R; sizes enumerated (the property's own finite range); NOT verified: tred2, tql2 (QL convergence), "
            "get_eigenvalues -> the eigen clause holds only modulo their assumed contract; gj_solve G3 conditional on no "
            "exactly-zero diagonal in back substitution; open findings: no row exchange, absolute pivot tolerance"),
@@ -41,7 +41,7 @@ CHECKS += [
       text="Proof over the reals for every pair of particles: relational contract on the real loop() text of the 17 listed "
            "momentum equations (pair (a,b) vs (b,a) on two-cell arrays with distinct indices): m_a da_a + m_b da_b = 0, "
            "XIJ x (m_a da_a) = 0 for the central-force terms, frame (no store to a source array or a foreign cell); the 3 "
-           "summation-density loops add a non-negative term and W(0,h) > 0 for every kernel.",
+           "summation-density loops add a non-negative term and W(0,h) > 0 for every kernel. The pair-symbol formulas (C02) and the kernel-gradient contracts (C08, one dim per kernel) this proof assumes are re-proved in this check (dep.*).",
       note="float = R; kernel contracts of C08 and symbol formulas of C02 are assumed here (proved there); equation "
            "parameters arbitrary but shared; array-level constants wdeltap,n equal on both arrays; the summation over all "
            "pairs (antisymmetric terms over a symmetric neighbour relation vanish) is a mathematical glue lemma, not "
@@ -110,16 +110,21 @@ CHECKS += [
            "reads bound to their documented values and the kernel methods as uninterpreted functions (right method, right "
            "h, d_/s_ not mixed, nothing else assigned); _set_kernel leaves no placeholder. Closure and order of "
            "_setup_precomputed/sort_precomputed: bounded exhaustive (1620 sets), labelled bounded, not counted. Kernel "
-           "twins are C08's.",
+           "twins are C08's. The ordering/iteration/range/determinism contracts of C03 that 'in the documented order, over "
+           "the same neighbours' rests on are re-proved in this check (obligations dep.c03.*).",
       note="the transpiler (compyle), mako glue, Cython and gcc are external: nothing is proved about the transpiled "
            "text, so 'values left in every property equal executing the Python methods' is claimed only for the symbol "
            "table and kernel substitution"),
  dict(id='C03',
       text="Slice: proved -- the iteration skeleton emitted by the real get_iteration_init/check (literals generalised to "
            "MIN, MAX; arbitrary convergence predicate) stops at exactly the first pass k >= MIN with converged or k = MAX, "
-           "1 <= k <= MAX, counter reset; destination range selection for every kind of start/stop index and real flag. "
+           "1 <= k <= MAX, counter reset; destination range selection with SYMBOLIC integer start/stop indices (printed as "
+           "opaque markers, so 0 and negatives are covered), property names and None, both real flags; "
+           "MegaGroup._make_data never iterates over a set and lays destinations/sources out in user order (determinism). "
            "Bounded (labelled, not counted): converged-condition join, MegaGroup._make_data ordering (7380 equation "
-           "lists), emission order of the real do_group for all 2^10 guard valuations x 1-2 dests x 0-2 sources.",
+           "lists), emission order of the real do_group for all 2^10 guard valuations x 1-2 dests x 0-2 sources, nesting of "
+           "the mega-group loop of compute() (388 group trees: every block under exactly its own condition(s) and loop). "
+           "One defect repaired (fix: a804f4e).",
       note="Cython semantics of the emitted lines and compyle get_parallel_range assumed; the meaning of emitted calls is "
            "not examined; bounded parts are enumerations of the real functions with stated bounds"),
 ]
@@ -139,7 +144,7 @@ CHECKS += [
       text="Slice: write-frame contract for every initialize/initialize_pair/loop/loop_all/post_loop of all 309 shipped "
            "equations (1827 stores, each proved by z3 to address s*d_idx+r, 0<=r<s, or listed as a known scatter write); "
            "Solver.reorder_particles re-orders every array then refreshes the NNPS and solve() does so before the initial "
-           "accelerations; every CPU --nnps branch passes cache and sort_gids=options.sort_gids.",
+           "accelerations; every CPU --nnps branch passes cache and sort_gids=options.sort_gids. Re-proved here (dep.*): deterministic layout of the generated loops (C03), the sorted-neighbour segment and the sort_gids flag of every class (C01), spatially_order_particles (C17).",
       note="OpenMP ownership of d_idx assumed; whole-run equality across algorithms/threads, bit-reproducibility and float "
            "summation order are NOT decided (no contract expresses them); races have no deterministic replay; 18 scatter "
            "stores in 5 places are open known findings"),
@@ -149,7 +154,7 @@ CHECKS += [
            "contracts (symbolic index sets) of InletBase.update, hybrid Inlet.update, OutletBase.update incl. inactive "
            "stages: extract I={ioid==0} to the fluid then shift exactly x/y/z[I] by +-L*n on inlet/ghost; extract "
            "O={ioid==1} to the outlet THEN remove the same O from the fluid, remove {ioid==2} from the outlet; evaluator "
-           "wiring (zone array maxdist=length, fluid array unbounded, real=False).",
+           "wiring (zone array maxdist=length, fluid array unbounded, real=False). The ParticleArray contracts the hand-over relies on (extract into an array that may hold ghosts, remove, align, add_particles: C06) are re-proved in this check (dep.c06.*).",
       note="io_eval.evaluate sets ioid per the IOEvaluate contract (compiled evaluation assumed); ParticleArray "
            "extract/remove/add contracts are C06's; count conservation follows from them, not re-proved here; mirror "
            "Outlet.update checked structurally (call order) only"),
@@ -162,10 +167,17 @@ CHECKS += [
            "array + own stride passed to every property; remove_particles sorts the index list whatever its type and "
            "hands the same sorted array, flag and own stride to every property; remove_tagged_particles collects exactly "
            "the matching indices in order; extend resizes to (n+k)*stride and fills defaults from n*stride; "
-           "extract_particles copies whole rows to the end of the destination.",
-      note="cyarray (resize/remove/c_align_array/copy_values) contracts assumed; Cython types dropped by the extraction; "
-           "NOT verified: add_property, add_particles, append_parray, pickling, get/set (numpy glue) -> the record-list "
-           "equivalence is claimed only for the operations listed"),
+           "extract_particles copies whole rows to the end of the destination; remove_property forgets every per-property "
+           "record (array, default, stride, output list); resize walks every property with its own stride; add_particles "
+           "extends given properties with the given data and every other one to (n+k)*stride with its default from n*stride; "
+           "append_parray extends by the other array's count, copies common properties to the tail with the destination's "
+           "stride and creates missing ones with the source's type/default/stride; add_property for every combination of "
+           "{array empty or not} x {data or not} x {new or existing name}: default and stride records, length of the new "
+           "array, and -- when the first particles arrive with the data -- every other property grown to n*its stride and "
+           "filled with its default. One defect repaired (fix: 86a774b).",
+      note="cyarray (resize/remove/c_align_array/copy_values/extend) contracts and numpy slice assignment assumed; Cython types "
+           "dropped by the extraction; NOT verified: add_property's dtype conversions and its GPU branch, pickling, get/set, clone, "
+           "copy_properties -> the record-list equivalence is claimed only for the operations listed"),
  dict(id='C07',
       text="Partial, on the extracted nnps_base.pyx: box wrap proved for any number of particles (quantified invariant: "
            "every coordinate moved by 0 or +-T, back inside when it had left by < T, untouched otherwise); the three "
@@ -173,7 +185,7 @@ CHECKS += [
            "the mirror translation -2(x-min)/2(max-x) in lockstep); trace contract of the periodic and mirror ghost "
            "construction for two arrays (documented order, images shifted along the right axis from the old end of the "
            "buffer, corner passes over the ghost buffer, matching velocity component negated, lists filled by this "
-           "array's scan); update() removes old ghosts first. One defect repaired (fix: a11db0a).",
+           "array's scan); update() removes old ghosts first. One defect repaired (fix: a11db0a). Also: every scan covers the whole column it reads (ghosts of earlier passes included), every ghost buffer is emptied exactly once before images are collected in it, and the first-update branch (buffers cloned) is checked separately.",
       note="ParticleArray operations assumed (C06); the set lemma 'every face/edge/corner image exactly once' is "
            "mathematics and only pre-screened; GPU/MPI paths not examined; replay of violations builds the extension "
            "from the working tree (about 1 min)"),
@@ -185,7 +197,7 @@ CHECKS += [
            "follows next[] to UINT_MAX; the octree / z-order / stratified-SFC versions copy exactly the first "
            "num_particles pids of the REQUESTED array; spatially_order_particles passes the same index list and each "
            "property's own stride to c_align_array of every property and re-aligns the array afterwards. One defect "
-           "repaired (fix: 994cb80, ghosts interleaved with real particles).",
+           "repaired (fix: 994cb80, ghosts interleaved with real particles). Solver.reorder_particles (re-order every array, then update() whatever the domain: C05) is re-proved here (dep.c05.*); the search object's is_periodic flag is arbitrary.",
       note="glue lemma 'push-front lists built from empty lists are a partition, so the walk yields a permutation' and "
            "std::sort permuting the pid arrays are mathematics/assumed, not machine-checked; cyarray c_align_array and "
            "ParticleArray.align_particles are assumed (C06); 'queries after the following update are exact' is C01's "
@@ -203,7 +215,7 @@ CHECKS += [
            "BOUNDED stand-in (never counted as proved): extensions built from the working tree, 12 classes x 7 (quick) / "
            "11 (thorough) distributions x dims 1-3 x cache on/off x knob variants x 2 update rounds against the definition. "
            "Two defects repaired (fix: 6eae934, 613605a); open findings in the z-order / stratified-SFC / compressed-octree "
-           "classes listed in known_findings.json.",
+           "classes listed in known_findings.json. sort_gids: what every class hands to _sort_neighbors is exactly the segment appended by this call, and every constructor records the flag (one more defect repaired: 9af8932).",
       note="completeness, duplicate-freedom and index validity of the ten non-linked-list classes are only covered by the "
            "bounded stand-in (C++ hash tables, sorted key arrays and octrees are outside the VC generator); threads filling "
            "the cache are not modelled; pairs at exactly the cut-off are left open as the property says; 'the lists hold "
